@@ -539,6 +539,27 @@ def self_attr_aliases(tree: ast.Module, props: Set[str]) -> ast.AST:
             if not args or args[0].arg != "self":
                 continue
             _alias_in_method(m, props, may_store, has_setattr)
+        # a read of the private attribute behind a trivial property (`return self._x`) outside the property itself is
+        # the property read: one spelling (`self.x`) for both
+        backing: Dict[str, str] = {}
+        for m in cls.body:
+            if isinstance(m, (ast.FunctionDef, ast.AsyncFunctionDef)) and [ast.unparse(d) for d in m.decorator_list] == ["property"]:
+                body = [s_ for s_ in m.body if not (isinstance(s_, ast.Expr) and isinstance(s_.value, ast.Constant))]
+                if len(body) == 1 and isinstance(body[0], ast.Return) and isinstance(body[0].value, ast.Attribute) \
+                        and isinstance(body[0].value.value, ast.Name) and body[0].value.value.id == "self" and body[0].value.attr != m.name:
+                    backing[body[0].value.attr] = m.name
+        # only where the reference tree itself never reads the private attribute outside its property (otherwise both
+        # spellings already occur in the reference and the rules read them as written)
+        from .inline import known_backing_reads
+        kbr = known_backing_reads()
+        backing = {k: v for k, v in backing.items() if not any(r.endswith(":%s.%s" % (cls.name, k)) for r in kbr)}
+        if backing:
+            for m in cls.body:
+                if isinstance(m, (ast.FunctionDef, ast.AsyncFunctionDef)) and m.name not in backing.values():
+                    for x in ast.walk(m):
+                        if isinstance(x, ast.Attribute) and isinstance(x.ctx, ast.Load) and isinstance(x.value, ast.Name) and x.value.id == "self" \
+                                and x.attr in backing:
+                            x.attr = backing[x.attr]
     return tree
 
 
@@ -1034,16 +1055,151 @@ def fold_constant_tests(tree: ast.AST) -> ast.AST:
     return ast.fix_missing_locations(_FoldConstTests().visit(tree))
 
 
+def bulk_updates(tree: ast.AST) -> ast.AST:
+    """`d = {}` (or a literal) ... `d[k] = v` ... `self.table.update(d)` with d a local used for nothing else, `self.table` not read
+    in between and no `raise` in the function: the entries are written as direct stores `self.table[k] = v` (what ends up in
+    the table is the same; the rules that look for stores into the table then see them).  `x = x` left by inlining is dropped."""
+    for fn in [n for n in ast.walk(tree) if isinstance(n, (ast.FunctionDef, ast.AsyncFunctionDef))]:
+        # drop x = x
+        for x in ast.walk(fn):
+            for fld in ("body", "orelse", "finalbody"):
+                b = getattr(x, fld, None)
+                if isinstance(b, list) and any(isinstance(s, ast.Assign) and len(s.targets) == 1 and isinstance(s.targets[0], ast.Name)
+                                               and isinstance(s.value, ast.Name) and s.value.id == s.targets[0].id for s in b):
+                    b[:] = [s for s in b if not (isinstance(s, ast.Assign) and len(s.targets) == 1 and isinstance(s.targets[0], ast.Name)
+                                                 and isinstance(s.value, ast.Name) and s.value.id == s.targets[0].id)] or [ast.Pass()]
+        if any(isinstance(x, ast.Raise) for x in ast.walk(fn)):
+            continue
+        own = list(ast.walk(fn))
+        pm: Dict[int, ast.AST] = {}
+        for x in own:
+            for ch in ast.iter_child_nodes(x):
+                pm[id(ch)] = x
+        ups = [c for c in own if isinstance(c, ast.Call) and isinstance(c.func, ast.Attribute) and c.func.attr == "update" and len(c.args) == 1
+               and not c.keywords and isinstance(c.args[0], ast.Name) and _self_chain(c.func.value) and isinstance(pm.get(id(c)), ast.Expr)]
+        for up in ups:
+            d = up.args[0].id
+            table = up.func.value
+            uses = [x for x in own if isinstance(x, ast.Name) and x.id == d]
+            ok = True
+            inits, stores = [], []
+            for u in uses:
+                par = pm.get(id(u))
+                if u is up.args[0]:
+                    continue
+                if isinstance(u.ctx, ast.Store) and isinstance(par, ast.Assign) and len(par.targets) == 1 and par.targets[0] is u \
+                        and isinstance(par.value, ast.Dict) and all(k is not None for k in par.value.keys):
+                    inits.append(par)
+                elif isinstance(u.ctx, ast.Load) and isinstance(par, ast.Subscript) and par.value is u and isinstance(par.ctx, ast.Store) \
+                        and isinstance(pm.get(id(par)), ast.Assign) and len(pm[id(par)].targets) == 1:
+                    stores.append(par)
+                else:
+                    ok = False
+            table_txt = norm(table)
+            other_reads = [x for x in own if isinstance(x, ast.Attribute) and norm(x) == table_txt and x is not table]
+            if not ok or not (inits or stores) or other_reads:
+                continue
+            import copy as _c
+            for par in stores:
+                par.value = ast.copy_location(_c.deepcopy(table), par.value)
+            for ini in inits:
+                new = [ast.copy_location(ast.Assign([ast.Subscript(_c.deepcopy(table), k, ast.Store())], v), ini)
+                       for k, v in zip(ini.value.keys, ini.value.values)] or [ast.copy_location(ast.Pass(), ini)]
+                holder = pm.get(id(ini))
+                for fld in ("body", "orelse", "finalbody"):
+                    b = getattr(holder, fld, None)
+                    if isinstance(b, list) and any(s is ini for s in b):
+                        i = [j for j, s in enumerate(b) if s is ini][0]
+                        b[i:i + 1] = new
+            _drop_stmt(fn, pm[id(up)])
+    return ast.fix_missing_locations(tree)
+
+
+def fold_new_constants(tree: ast.Module, mod: str, known: Set[str]) -> ast.AST:
+    """A name bound once, at module or class level, to a literal number / string and absent from the reference tree is a
+    magic number that was given a name: its reads are written as the literal again (module constants by bare name; class
+    constants through self. / cls. / ClassName.), provided nothing in the module stores to that name."""
+    def literal(v):
+        if isinstance(v, ast.Constant) and isinstance(v.value, (int, float, str)) and not isinstance(v.value, bool):
+            return v
+        if isinstance(v, ast.UnaryOp) and isinstance(v.op, ast.USub) and isinstance(v.operand, ast.Constant) \
+                and isinstance(v.operand.value, (int, float)) and not isinstance(v.operand.value, bool):
+            return v
+        return None
+    name_stores: Dict[str, int] = {}
+    attr_stores: Set[str] = set()
+    for x in ast.walk(tree):
+        if isinstance(x, ast.Name) and isinstance(x.ctx, (ast.Store, ast.Del)):
+            name_stores[x.id] = name_stores.get(x.id, 0) + 1
+        if isinstance(x, ast.Attribute) and isinstance(x.ctx, (ast.Store, ast.Del)):
+            attr_stores.add(x.attr)
+        if isinstance(x, (ast.arg,)):
+            name_stores[x.arg] = name_stores.get(x.arg, 0) + 1
+    mod_consts: Dict[str, ast.AST] = {}
+    for st in tree.body:
+        if isinstance(st, (ast.Assign, ast.AnnAssign)) and getattr(st, "value", None) is not None and literal(st.value) is not None:
+            tg = st.targets if isinstance(st, ast.Assign) else [st.target]
+            if len(tg) == 1 and isinstance(tg[0], ast.Name) and name_stores.get(tg[0].id) == 1 and "%s:%s" % (mod, tg[0].id) not in known \
+                    and not tg[0].id.startswith("__"):
+                mod_consts[tg[0].id] = st.value
+    cls_consts: Dict[Tuple[str, str], ast.AST] = {}
+    cls_attr_names: Dict[str, int] = {}
+    for c in tree.body:
+        if isinstance(c, ast.ClassDef):
+            for st in c.body:
+                if isinstance(st, (ast.Assign, ast.AnnAssign)) and getattr(st, "value", None) is not None and literal(st.value) is not None:
+                    tg = st.targets if isinstance(st, ast.Assign) else [st.target]
+                    if len(tg) == 1 and isinstance(tg[0], ast.Name) and "%s:%s.%s" % (mod, c.name, tg[0].id) not in known \
+                            and tg[0].id not in attr_stores:
+                        cls_consts[(c.name, tg[0].id)] = st.value
+                        cls_attr_names[tg[0].id] = cls_attr_names.get(tg[0].id, 0) + 1
+    if not mod_consts and not cls_consts:
+        return tree
+    import copy as _c
+
+    class R(ast.NodeTransformer):
+        def __init__(self):
+            self.cls = []
+
+        def visit_ClassDef(self, node):
+            self.cls.append(node.name)
+            self.generic_visit(node)
+            self.cls.pop()
+            return node
+
+        def visit_Name(self, node):
+            if isinstance(node.ctx, ast.Load) and node.id in mod_consts:
+                return ast.copy_location(_c.deepcopy(mod_consts[node.id]), node)
+            return node
+
+        def visit_Attribute(self, node):
+            self.generic_visit(node)
+            if isinstance(node.ctx, ast.Load) and isinstance(node.value, ast.Name) and cls_attr_names.get(node.attr) == 1:
+                for (cn, an), v in cls_consts.items():
+                    if an == node.attr and (node.value.id == cn or (node.value.id in ("self", "cls") and self.cls and self.cls[-1] == cn)):
+                        return ast.copy_location(_c.deepcopy(v), node)
+            return node
+    return ast.fix_missing_locations(R().visit(tree))
+
+
 def package_properties(trees: Iterable[ast.AST]) -> Set[str]:
     """names that are properties / descriptors / methods somewhere in the package: reading them may compute"""
     out: Set[str] = set()
+    trivial: Dict[str, bool] = {}
     for t in trees:
         for c in ast.walk(t):
             if isinstance(c, ast.ClassDef):
                 for m in c.body:
                     if isinstance(m, (ast.FunctionDef, ast.AsyncFunctionDef)):
                         out.add(m.name)
-    return out
+                        decs = [ast.unparse(d) for d in m.decorator_list]
+                        body = [s for s in m.body if not (isinstance(s, ast.Expr) and isinstance(s.value, ast.Constant))]
+                        is_getter = decs == ["property"] and len(body) == 1 and isinstance(body[0], ast.Return) \
+                            and isinstance(body[0].value, ast.Attribute) and isinstance(body[0].value.value, ast.Name) and body[0].value.value.id == "self"
+                        is_setter = len(decs) == 1 and decs[0].endswith(".setter")
+                        trivial[m.name] = trivial.get(m.name, True) and (is_getter or is_setter)
+    # a property whose every getter is `return self._x` reads like a data attribute (a local bound to it is an alias)
+    return {n for n in out if not trivial.get(n, False)}
 
 
 # --------------------------------------------------------------------------
@@ -2120,17 +2276,18 @@ class Repo:
                     raw[mod] = (path, rel, src, ast.parse(src, filename=path))
                 except (SyntaxError, OSError, UnicodeDecodeError) as exc:
                     raise AnalysisError("cannot parse %s: %s" % (rel, exc))
-        from .inline import inline_new_helpers, known_functions, undo_renames, changed_functions
+        from .inline import inline_new_helpers, known_functions, undo_renames, changed_functions, known_constants
+        kconst = known_constants()
         # which functions are not, token for token, functions of the reference tree (empty on the reference tree)
         self.changed = changed_functions({mod: v[3] for mod, v in raw.items()})
         self.renamed = undo_renames({mod: v[3] for mod, v in raw.items()})
         props = package_properties(v[3] for v in raw.values())
         for mod, (path, rel, src, tree) in raw.items():
-            tree = items_loops(chain_loops(literal_forms(paired_names(numpy_idioms(function_aliases(compiled_regexes(sentinel_dispatch(sroa_namedtuples(strip_inert(tree))))))))))
+            tree = items_loops(chain_loops(literal_forms(paired_names(numpy_idioms(function_aliases(compiled_regexes(sentinel_dispatch(sroa_namedtuples(fold_new_constants(strip_inert(tree), mod, kconst) if kconst else strip_inert(tree))))))))))
             tree, inl, skipped = inline_new_helpers(tree, mod, known_functions())
             if inl:
                 self.inlined[mod] = sorted(set(inl))
-                tree = copy_names(literal_forms(forward_single_use_temps(fold_constant_tests(tree))))
+                tree = bulk_updates(copy_names(literal_forms(forward_single_use_temps(fold_constant_tests(tree)))))
             tree = orient_comparisons(inline_adjacent_temps(forward_single_use_temps(self_attr_aliases(structure_guards(orient_comparisons(sink_returns(tree))), props))))
             self.modules[mod] = Module(mod, path, rel, src, tree)
         if not self.modules:
